@@ -102,7 +102,7 @@ def execute(case, ctx):
         r = ref.cdagc(i, j)
         if not close(v, r, 1):
             return fail("EnsembleAverage(c+_%d c_%d) = %r, reference %r" % (i, j, v, r), "ensavg")
-        for key, what in (("v2", "after a second prepare()"), ("vcopy", "of a copy")):
+        for key, what in (("v2", "after a second prepare()"), ("vcopy", "of a copy"), ("vcopy2", "of a copy after prepare() on the copy")):
             v2 = cx(run.q(("ea", k))[key])
             if not close(v2, r, 1):
                 return fail("EnsembleAverage(c+_%d c_%d) %s = %r, reference %r" % (i, j, what, v2, r), "ensavg-repeat")
